@@ -282,6 +282,51 @@ def gen_T07():
     tk = find_def(ti, 'takeMsg', 'Irc')
     ch = enclosing_tries(tk, lambda n: is_call(n, 'self._truncateMsg'))
     need(len(ch) == 1 and ch[0] == [], 'Irc.takeMsg: expected one self._truncateMsg(msg) under no try')
+    # ---- ISUPPORT state read by the per-message path before dispatch: _tagMsg -> _setMsgChannel -> isChannel ----
+    def body_of(cname, fname):
+        f = find_def(ti, fname, cname)
+        return norm([n for n in f.body if not (isinstance(n, ast.Expr) and isinstance(n.value, ast.Constant))])
+    need(body_of('IrcState', 'do005') == "for arg in msg.args[1:-1]:     if '=' in arg:         name, value = arg.split('=', 1)         "
+         "converter = self._005converters.get(name, lambda x: x)         try:             self.supported[name] = converter(value)         "
+         "except Exception:             log.exception('Uncaught exception in 005 converter:')             "
+         "log.error('Name: %s, Converter: %s', name, converter)     else:         self.supported[arg] = None",
+         'IrcState.do005 changed: ' + body_of('IrcState', 'do005'))
+    need(body_of('Irc', '_setMsgChannel') == "channel = None ; if msg.args:     channel = msg.args[0]     if msg.command in ('NOTICE', 'PRIVMSG') "
+         "and (not conf.supybot.protocols.irc.strictRfc()):         channel = self.stripChannelPrefix(channel) ; "
+         "if not self.isChannel(channel):     channel = None ; msg.channel = channel", 'Irc._setMsgChannel changed')
+    need(body_of('Irc', 'stripChannelPrefix') == "statusmsg_chars = self.state.supported.get('statusmsg', '') ; return channel.lstrip(statusmsg_chars)",
+         'Irc.stripChannelPrefix changed')
+    ic = body_of('Irc', 'isChannel')
+    if ic == ("kw = {} ; if 'chantypes' in self.state.supported:     kw['chantypes'] = self.state.supported['chantypes'] ; "
+              "if 'channellen' in self.state.supported:     kw['channellen'] = self.state.supported['channellen'] ; return ircutils.isChannel(s, **kw)"):
+        none_safe = False        # a None entry (token without value) reaches ircutils.isChannel
+    elif ic == ("kw = {} ; chantypes = self.state.supported.get('chantypes') ; if chantypes is not None:     kw['chantypes'] = chantypes ; "
+                "channellen = self.state.supported.get('channellen') ; if channellen is not None:     kw['channellen'] = channellen ; "
+                "return ircutils.isChannel(s, **kw)"):
+        none_safe = True
+    else:
+        need(False, 'Irc.isChannel: shape not understood: ' + ic)
+    tut = tree('src/ircutils.py')
+    uic = find_def(tut, 'isChannel')
+    need(ast.unparse(uic.args) == "s, chantypes='#&!', channellen=50" and ast.unparse(uic.body[-1]) ==
+         "return s and ',' not in s and ('\\x07' not in s) and (s[0] in chantypes) and (len(s) <= channellen) and (len(s.split(None, 1)) == 1)",
+         'ircutils.isChannel changed')
+    conv = None
+    for node in find_class(ti, 'IrcState').body:
+        if isinstance(node, ast.Assign) and ast.unparse(node.targets[0]) == '_005converters':
+            d = node.value.args[0]
+            conv = {k.value: ast.unparse(v) for k, v in zip(d.keys, d.values)}
+    need(conv is not None and conv.get('channellen') == 'int' and 'chantypes' not in conv and 'statusmsg' not in conv,
+         'IrcState._005converters: channellen/chantypes/statusmsg converters changed')
+    tkf = find_def(ti, 'takeMsg', 'Irc')
+    loops = [n for n in ast.walk(tkf) if isinstance(n, ast.For) and ast.unparse(n.iter) == 'reversed(self.callbacks)']
+    need(len(loops) == 1 and ast.unparse(loops[0].body[0]) == 'self._setMsgChannel(msg)', 'Irc.takeMsg: the out-filter loop no longer tags first')
+    need(not enclosing_tries(tkf, lambda n: is_call(n, 'self._setMsgChannel'))[0], 'Irc.takeMsg: _setMsgChannel now under a try')
+    need('self._tagMsg(msg)' in ast.unparse(fm.body[1]) or 'self._tagMsg(msg)' in ast.unparse(fm.body[0]) + ast.unparse(fm.body[1]),
+         'Irc.feedMsg no longer tags the message first')
+    names = set('chantypeschannellenstatusmsg')
+    for c in range(128, 0x110000):
+        need(not (set(chr(c).lower()) & names), 'non-ASCII code point %d lower-cases into an ISUPPORT key letter' % c)
     # ---- every log message goes through utils.str.format: the handlers' log calls are code that can raise ----
     import re as _re
     fr = None
@@ -344,6 +389,7 @@ def gen_T07():
     out += 'Definition CALLBACK_FIREWALLED : list (list N * bool) :=\n  %s.\n' % clist(
         '(%s, %s)' % (cstr(n), cbool(h)) for n, h, _ in cb_fw)
     out += 'Definition NICK_SETTERS : list (list N) :=\n  %s.\n' % clist(cstr(x) for x in sorted(ns))
+    out += 'Definition ISCHANNEL_NONE_SAFE : bool := %s.\n' % cbool(none_safe)
     out += 'Definition HANDLER_LOGS : list (N * (bool * (N * N))) :=\n  %s.\n' % clist(
         '(%d, (%s, (%d, %d)))' % (s, cbool(c), nd, na) for s, c, nd, na in logs)
     out += 'Definition FORMAT_CHARS : list N := %s.\n' % cstr(fmt_chars)
